@@ -91,7 +91,10 @@ int main(int argc, char** argv) {
             if (kindmod == 1) { p.modampl = r.logu(1e-4, 0.3); p.modinc = longrun ? r.logu(1e-4, 1e-2) : r.logu(1e-4, 0.4); }
             else { p.phasespread = r.chance(0.7) ? r.logu(1e-6, 1e-2) * std::sqrt(p.revpart) : 0; p.amplspread = r.chance(0.7) ? r.logu(1e-6, 1e-2) * std::sqrt(p.revpart) : 0;
                    if (r.chance(0.5)) { p.modampl = r.logu(1e-4, 0.3); p.modinc = r.logu(1e-4, 0.4); }
-                   if (p.phasespread == 0 && p.amplspread == 0 && p.modampl == 0) p.phasespread = 1e-4 * std::sqrt(p.revpart); }
+                   if (p.phasespread == 0 && p.amplspread == 0 && p.modampl == 0) p.phasespread = 1e-4 * std::sqrt(p.revpart);
+                   // one noise case in six: amplitude noise of order one per step, so that the amplitude 1 + noise of many steps is negative
+                   // (the voltage is inverted in those steps: what is applied is still what is recorded)
+                   if ((c / 24) % 6 == 1) { p.amplspread = r.uni(0.3, 1.0) * std::sqrt(p.revpart); M.ev("cases_with_amplitude_noise_of_order_one"); } }
         } else if (r.chance(0.5)) p.modinc = r.logu(1e-4, 0.4);   // frequency set but amplitude zero
         M.begin_case(c, "c19 " + p.descr());
         vh::set_grid(p.n, 1);
